@@ -260,6 +260,7 @@ PROPERTIES = {
         "rule": "C09: vote collection",
         "parts": [
             part("C09.clique", shards={"quick": 16, "thorough": 16}, floor=200),
+            part("C09.kauri", shards={"quick": 16, "thorough": 16}, floor=200),
             part("C09.async", race=True, shards={"quick": 8, "thorough": 16}, floor=30, timeout={"quick": 900, "thorough": 7200}),
         ],
     },
